@@ -29,6 +29,58 @@ def _tri(run, ok, witness, rule, f, role, line, good, bad, **kw):
     return run.undecided(rule, f, role, line, 'construct not in a recognised form (%s)' % good)
 
 
+def _arm_of(ctx, f, nd, how):
+    """which representation reaches loop nd: evaluate its path conditions for the string and for the integer case
+    (is_string True / False, or type(decimal_number) str / int).  -> 'string' | 'integer' | None (both or neither)"""
+    from ..finite import feval, UNKNOWN
+    conds = ctx.conds(f, nd)
+    if how == 'flag' and not any(x == ('v', 'is_string', 'P') for a, p in conds for x in walk_term(a)):
+        # no test on the flag above the loop: is it reached only after the other arm returned?  (guard-clause form)
+        dom = f.dominators()
+        for t_ in f.nodes:
+            if t_.kind == 'test' and t_.id in dom[nd.id]:
+                tt = f.term(t_.ast, t_)
+                for pol_true in (True, False):
+                    v = feval(tt, lambda x: pol_true if x == ('v', 'is_string', 'P') else UNKNOWN)
+                    if v is UNKNOWN:
+                        break
+                else:
+                    # the test is decided by the flag; the arm that always leaves (return / raise) excludes its polarity
+                    for pol_true in (True, False):
+                        taken = bool(feval(tt, lambda x: pol_true if x == ('v', 'is_string', 'P') else UNKNOWN))
+                        arm_nodes = [x for x in f.nodes if any(tid == t_.id and p == taken for _, p, tid in x.conds)]
+                        leaves = arm_nodes and not any(nd.id in f.reachable_from(x.id) for x in arm_nodes)
+                        if leaves:
+                            return 'integer' if pol_true else 'string'
+        return None
+    got = []
+    for label, val in (('string', True if how == 'flag' else str), ('integer', False if how == 'flag' else int)):
+        def atom(x, val=val):
+            if how == 'flag':
+                return val if x == ('v', 'is_string', 'P') else UNKNOWN
+            if is_call(x, 'builtins.type') and len(x[2]) == 1 and x[2][0] == ('v', 'decimal_number', 'P'):
+                return val
+            if is_call(x, 'builtins.isinstance') and len(x[2]) == 2 and x[2][0] == ('v', 'decimal_number', 'P'):
+                ty = x[2][1]
+                tys = [ty] if ty[0] == 'g' else list(ty[1:]) if ty[0] == 'tuple' else []
+                names = {'builtins.str': str, 'builtins.int': int}
+                if tys and all(t[0] == 'g' and t[1] in names for t in tys):
+                    return val in [names[t[1]] for t in tys]
+                return UNKNOWN
+            if x == ('g', 'builtins.str'):
+                return str
+            if x == ('g', 'builtins.int'):
+                return int
+            return UNKNOWN
+        vs = [feval(a, atom) for a, p in conds]
+        if any(v is UNKNOWN for v in vs):
+            # a condition that does not depend on the representation is no obstacle
+            vs = [v if v is not UNKNOWN else p for v, (a, p) in zip(vs, conds)]
+        if all(bool(v) == p for v, (a, p) in zip(vs, conds)):
+            got.append(label)
+    return got[0] if len(got) == 1 else None
+
+
 def r_conv(ctx):
     run = ctx.run
     run.rule('R-CONV', "for bit_to_number / dna_to_number (string and integer path): accumulation acc*R + d over the "
@@ -111,53 +163,95 @@ def r_conv(ctx):
             body = {x.id for x in f.nodes if nd.id in x.loops}
             it = f.term(nd.stmt.iter, nd)
             src = it[2][0] if is_call(it, 'builtins.enumerate') and it[2] else it
-            arm = None
-            for atom, pol in ctx.conds(f, nd):
-                if atom == ('v', 'is_string', 'P'):
-                    arm = 'string' if pol else 'integer'
+            arm = _arm_of(ctx, f, nd, 'flag')
+            arms = [arm] if arm else []
+            if arm is None:
+                # one loop serving both representations: the body branches on the flag
+                from ..ctx import path_feasible
+                tests_flag = any(x == ('v', 'is_string', 'P') for b_ in body if f.nodes[b_].kind == 'test'
+                                 for x in walk_term(f.term(f.nodes[b_].ast, f.nodes[b_])))
+                if tests_flag:
+                    arms = ['string', 'integer']
+            for arm in arms:
+                fused = len(arms) == 2
+                n += 1
+                # forward order over the sequence (or over the values mapped from it)
+                fwd = src == ('v', seqparam, 'P') or (src[0] in ('call',) and any(x == ('v', seqparam, 'P') for x in walk_term(src))
+                                                       and not any(is_call(x, 'builtins.reversed') or
+                                                                   (x[0] == 'sub' and x[2] == ('slice', NONE, NONE, ('c', -1)))
+                                                                   for x in walk_term(src)))
+                rev = any(is_call(x, 'builtins.reversed') or (x[0] == 'sub' and x[2] == ('slice', NONE, NONE, ('c', -1)))
+                          for x in walk_term(src))
+                fwd = not rev and any(x == ('v', seqparam, 'P') for x in walk_term(src))
+                _tri(run, fwd, rev, 'R-CONV', f, '%s:forward-order' % arm, nd.lineno, 'most significant symbol first',
+                          '%s (%s path) iterates %s: the sequence must be accumulated in forward order' % (name, arm, show(src)[:60]),
+                          inputs='every non-palindromic input')
+                # accumulation
+                ok, why, wit = False, 'no accumulation found', False
+                for p, k in ctx.body_paths(f, nd.id):
+                    if k != 'back':
+                        continue
+                    if fused and path_feasible(f, p, atom=lambda x, v=(arm == 'string'): v if x == ('v', 'is_string', 'P') else UNKNOWN) is False:
+                        continue
+                    events, env = walk_path(f, p)
+                    for e in events:
+                        if e.kind not in ('def', 'aug'):
+                            continue
+                        t = e.term
+                        if arm == 'integer' and t[0] == 'bin' and t[1] == '+':
+                            for a, b in ((t[2], t[3]), (t[3], t[2])):
+                                if a[0] == 'bin' and a[1] == '*' and a[2][0] == 'v' and a[2][1] == e.name and _radix_ok(a[3], radix) \
+                                        and b[0] == 'iter':
+                                    ok = True
+                                elif a[0] == 'bin' and a[1] == '*' and a[2][0] == 'v' and a[2][1] == e.name and a[3][0] == 'c':
+                                    why, wit = 'integer path multiplies by %s, radix is %d' % (show(a[3]), radix), True
+                        if arm == 'string' and call_name(t) and call_name(t).endswith('.calculus_addition'):
+                            num, base = call_arg(t, 0, 'number'), call_arg(t, 1, 'base')
+                            if num is not None and call_name(num) and call_name(num).endswith('.calculus_multiplication'):
+                                mb = call_arg(num, 1, 'base')
+                                mn = call_arg(num, 0, 'number')
+                                if _radix_ok(mb, radix) and mn[0] == 'v' and mn[1] == e.name and is_call(base, 'builtins.str') \
+                                        and base[2] and base[2][0][0] == 'iter':
+                                    ok = True
+                                elif mb is not None and mb[0] == 'c' and not _radix_ok(mb, radix):
+                                    why, wit = 'string path multiplies by %s, radix is %d' % (show(mb), radix), True
+                _tri(run, ok, wit and not ok, 'R-CONV', f, '%s:acc*R+d' % arm, nd.lineno, 'acc <- acc * %d + digit' % radix,
+                          '%s (%s path): %s; required acc * %d + digit' % (name, arm, why, radix), inputs='every input longer than one symbol')
+        # functools.reduce(lambda acc, d: acc * R + d, digits, 0) is the integer accumulation without a loop
+        for nd in f.nodes:
+            if nd.kind != 'stmt' or not isinstance(nd.stmt, (ast.Assign, ast.Return)) or nd.stmt.value is None:
+                continue
+            t = f.term(nd.stmt.value, nd)
+            if not is_call(t, 'functools.reduce') or len(t[2]) < 2 or t[2][0][0] != 'lambda' or t[2][0][1] != 2:
+                continue
+            arm = _arm_of(ctx, f, nd, 'flag')
             if arm is None:
                 continue
             n += 1
-            # forward order over the sequence (or over the values mapped from it)
-            fwd = src == ('v', seqparam, 'P') or (src[0] in ('call',) and any(x == ('v', seqparam, 'P') for x in walk_term(src))
-                                                   and not any(is_call(x, 'builtins.reversed') or
-                                                               (x[0] == 'sub' and x[2] == ('slice', NONE, NONE, ('c', -1)))
-                                                               for x in walk_term(src)))
+            body, seq = t[2][0][2], t[2][1]
+            acc, dig = None, None
+            okr = False
+            wit = None
+            if body[0] == 'bin' and body[1] == '+':
+                for a, b in ((body[2], body[3]), (body[3], body[2])):
+                    if a[0] == 'bin' and a[1] == '*' and a[2][0] == 'b' and b[0] == 'b' and a[2] != b:
+                        acc, dig = a[2], b
+                        if _radix_ok(a[3], radix):
+                            okr = acc[1] < dig[1]          # the accumulator is the first lambda parameter
+                            if not okr:
+                                wit = 'the lambda multiplies its second parameter (the digit), not the accumulator'
+                        elif a[3][0] == 'c':
+                            wit = 'multiplies by %s, radix is %d' % (show(a[3]), radix)
+            init_ok = len(t[2]) == 3 and t[2][2] == ('c', 0)
             rev = any(is_call(x, 'builtins.reversed') or (x[0] == 'sub' and x[2] == ('slice', NONE, NONE, ('c', -1)))
-                      for x in walk_term(src))
-            fwd = not rev and any(x == ('v', seqparam, 'P') for x in walk_term(src))
+                      for x in walk_term(seq))
+            fwd = not rev and any(x == ('v', seqparam, 'P') for x in walk_term(seq))
             _tri(run, fwd, rev, 'R-CONV', f, '%s:forward-order' % arm, nd.lineno, 'most significant symbol first',
-                      '%s (%s path) iterates %s: the sequence must be accumulated in forward order' % (name, arm, show(src)[:60]),
-                      inputs='every non-palindromic input')
-            # accumulation
-            ok, why, wit = False, 'no accumulation found', False
-            for p, k in ctx.body_paths(f, nd.id):
-                if k != 'back':
-                    continue
-                events, env = walk_path(f, p)
-                for e in events:
-                    if e.kind not in ('def', 'aug'):
-                        continue
-                    t = e.term
-                    if arm == 'integer' and t[0] == 'bin' and t[1] == '+':
-                        for a, b in ((t[2], t[3]), (t[3], t[2])):
-                            if a[0] == 'bin' and a[1] == '*' and a[2][0] == 'v' and a[2][1] == e.name and _radix_ok(a[3], radix) \
-                                    and b[0] == 'iter':
-                                ok = True
-                            elif a[0] == 'bin' and a[1] == '*' and a[2][0] == 'v' and a[2][1] == e.name and a[3][0] == 'c':
-                                why, wit = 'integer path multiplies by %s, radix is %d' % (show(a[3]), radix), True
-                    if arm == 'string' and call_name(t) and call_name(t).endswith('.calculus_addition'):
-                        num, base = call_arg(t, 0, 'number'), call_arg(t, 1, 'base')
-                        if num is not None and call_name(num) and call_name(num).endswith('.calculus_multiplication'):
-                            mb = call_arg(num, 1, 'base')
-                            mn = call_arg(num, 0, 'number')
-                            if _radix_ok(mb, radix) and mn[0] == 'v' and mn[1] == e.name and is_call(base, 'builtins.str') \
-                                    and base[2] and base[2][0][0] == 'iter':
-                                ok = True
-                            elif mb is not None and mb[0] == 'c' and not _radix_ok(mb, radix):
-                                why, wit = 'string path multiplies by %s, radix is %d' % (show(mb), radix), True
-            _tri(run, ok, wit and not ok, 'R-CONV', f, '%s:acc*R+d' % arm, nd.lineno, 'acc <- acc * %d + digit' % radix,
-                      '%s (%s path): %s; required acc * %d + digit' % (name, arm, why, radix), inputs='every input longer than one symbol')
+                 '%s (%s path) reduces over %s: the sequence must be accumulated in forward order' % (name, arm, show(seq)[:60]),
+                 inputs='every non-palindromic input')
+            _tri(run, okr and init_ok, wit is not None, 'R-CONV', f, '%s:acc*R+d' % arm, nd.lineno,
+                 'reduce(lambda acc, d: acc * %d + d, digits, 0)' % radix,
+                 '%s (%s path): %s; required acc * %d + digit' % (name, arm, wit, radix), inputs='every input longer than one symbol')
         run.floor('R-CONV', 'accumulation loops of %s' % name, n, 2)
     for name, radix, zero in (('number_to_bit', 2, 0), ('number_to_dna', 4, 'A')):
         f = ctx.p.func(OP + name)
@@ -165,16 +259,14 @@ def r_conv(ctx):
         for nd in f.nodes:
             if nd.kind != 'while':
                 continue
-            arm = None
-            for atom, pol in ctx.conds(f, nd):
-                if atom[0] == 'cmp' and atom[1] in ('==', 'is') and pol and is_call(atom[2], 'builtins.type'):
-                    arm = {'builtins.str': 'string', 'builtins.int': 'integer'}.get(atom[3][1] if atom[3][0] == 'g' else '')
+            arm = _arm_of(ctx, f, nd, 'type')
             if arm is None:
                 continue
             n += 1
-            ok_div = ok_front = False
+            ok_div = ok_front = ok_digit = False
             why = ''
             wit_div = wit_front = False
+            wit_digit = None
             for p, k in ctx.body_paths(f, nd.id):
                 if k != 'back':
                     continue
@@ -187,23 +279,71 @@ def r_conv(ctx):
                             ok_div = _radix_ok(bs, radix)
                             why = 'divides by %s' % show(bs)
                             wit_div = bs is not None and bs[0] == 'c' and not ok_div
-                    if e.kind == 'def' and arm == 'integer' and e.term[0] == 'bin' and e.term[1] == '//' and \
+                    if e.kind in ('def', 'aug') and arm == 'integer' and e.term[0] == 'bin' and e.term[1] == '//' and \
                             e.term[2][0] == 'v' and e.term[2][1] == e.name:
-                        ok_div = _radix_ok(e.term[3], radix)        # n, r = divmod(n, R)
+                        ok_div = _radix_ok(e.term[3], radix)        # n, r = divmod(n, R)  /  n //= R
                         why = 'divides by %s' % show(e.term[3])
                         wit_div = e.term[3][0] == 'c' and not ok_div
+                    if e.kind in ('def', 'aug') and arm == 'integer' and e.term[0] == 'bin' and e.term[1] == '>>' and \
+                            e.term[2][0] == 'v' and e.term[2][1] == e.name and e.term[3][0] == 'c':
+                        ok_div = radix == 2 ** e.term[3][1] if isinstance(e.term[3][1], int) and 0 < e.term[3][1] < 8 else False
+                        why = 'shifts right by %s' % show(e.term[3])
+                        wit_div = not ok_div
+                    if e.kind in ('insert', 'append'):
+                        dg = e.term[1] if e.kind == 'insert' and len(e.term) > 1 else e.term[0]
+                        if dg[0] == 'sub' and dg[1] == ('c', ALPHA):
+                            dg = dg[2]
+                        dg = strip_int(dg)
+                        if arm == 'integer':
+                            # the digit is the remainder of the number *before* this round's division
+                            if dg[0] == 'bin' and dg[1] == '//' or (dg[0] == 'item' and dg[2] == 0):
+                                wit_digit = 'the quotient (%s) is stored as the digit' % show(dg)[:40]
+                            elif dg[0] == 'bin' and dg[1] == '%' and dg[2][0] == 'v' and isinstance(dg[2][2], tuple):
+                                ok_digit = _radix_ok(dg[3], radix)
+                                if not ok_digit and dg[3][0] == 'c':
+                                    wit_digit = 'the digit is taken modulo %s, radix is %d' % (show(dg[3]), radix)
+                            elif dg[0] == 'bin' and dg[1] == '&' and dg[2][0] == 'v' and isinstance(dg[2][2], tuple) and dg[3][0] == 'c':
+                                ok_digit = dg[3][1] == radix - 1 and radix in (2, 4)
+                                if not ok_digit:
+                                    wit_digit = 'the digit is masked with %s, radix is %d' % (show(dg[3]), radix)
+                        else:
+                            if dg[0] == 'item' and dg[2] == 1 and call_name(dg[1]) and call_name(dg[1]).endswith('.calculus_division'):
+                                ok_digit = True
+                            elif dg[0] == 'item' and dg[2] == 0 and call_name(dg[1]) and call_name(dg[1]).endswith('.calculus_division'):
+                                wit_digit = 'the quotient of calculus_division is stored as the digit'
                     if e.kind == 'insert':
                         ok_front = e.term[0] == ('c', 0)
                         digit = e.term[1]
                         if name == 'number_to_dna':
-                            ok_front = ok_front and digit[0] == 'sub' and digit[1] == ('c', ALPHA)
+                            direct = digit[0] == 'sub' and digit[1] == ('c', ALPHA)
+                            # two-stage form: integer digits are collected, then mapped  ALPHA[d] for d in digits
+                            mapped = any(x[0] == 'comp' and x[2][0] == 'sub' and x[2][1] == ('c', ALPHA) and x[2][2][0] == 'iter'
+                                         and len(x[3]) == 1 and not x[3][0][1]
+                                         for _n, x in ctx.all_subterms(f))
+                            ok_front = ok_front and (direct or mapped)
                     if e.kind == 'append':
                         why = 'digit appended at the end'
-                        # appended digits are fine when the list is reversed afterwards
+                        # appended digits are fine when the list is reversed (once) afterwards
                         src_txt = ast.unparse(f.node)
                         wit_front = not ('.reverse()' in src_txt or '[::-1]' in src_txt or 'reversed(' in src_txt)
+                        lst = e.name
+                        nrev = 0
+                        for _n, x in ctx.all_subterms(f):
+                            if (is_call(x, 'builtins.reversed') and x[2] and x[2][0][0] == 'v' and x[2][0][1] == lst) or \
+                                    (x[0] == 'sub' and x[2] == ('slice', NONE, NONE, ('c', -1)) and x[1][0] == 'v' and x[1][1] == lst):
+                                nrev += 1
+                        nrev += sum(1 for c_ in ast.walk(f.node) if isinstance(c_, ast.Call) and isinstance(c_.func, ast.Attribute)
+                                    and c_.func.attr == 'reverse' and isinstance(c_.func.value, ast.Name) and c_.func.value.id == lst)
+                        dgt = e.term[0]
+                        letter_ok = name != 'number_to_dna' or (dgt[0] == 'sub' and dgt[1] == ('c', ALPHA))
+                        if nrev >= 1 and letter_ok:
+                            # the same reversal must serve every arm; one syntactic reversal of the list is what is accepted
+                            ok_front = True
             _tri(run, ok_div, wit_div, 'R-CONV', f, '%s:divide-by-%d' % (arm, radix), nd.lineno, 'repeated division by %d' % radix,
                       '%s (%s path) %s; radix is %d' % (name, arm, why, radix), inputs='every number >= the radix')
+            _tri(run, ok_digit, wit_digit is not None, 'R-CONV', f, '%s:digit-is-remainder' % arm, nd.lineno,
+                 'the stored digit is the remainder of the division by %d' % radix,
+                 '%s (%s path): %s' % (name, arm, wit_digit), inputs='every number >= the radix')
             _tri(run, ok_front, wit_front, 'R-CONV', f, '%s:digit-at-front' % arm, nd.lineno, 'each digit is inserted at the front',
                       '%s (%s path) does not insert each digit at position 0 (%s): the rendering is not big-endian' % (name, arm, why),
                       inputs='every number with two or more digits')
@@ -258,7 +398,7 @@ def r_conv(ctx):
             run.check(len(rets) == 3, 'R-CONV', f, 'three-length-arms', f.node.lineno, 'equal / shorter / longer arms',
                       'number_to_bit has %d return arms' % len(rets), nontrivial=False)
             for r, t, conds in tabs:
-                if t[0] == 'sub' and t[2][0] == 'slice':
+                if t[0] == 'sub' and t[2][0] == 'slice' and t[2][3] == NONE and (t[2][1] != NONE or t[2][2] != NONE):
                     run.check(t[2] == ('slice', NONE, width, NONE), 'R-CONV', f, 'longer-arm:exact-length', r.lineno,
                               'truncated to bit_length items', 'the longer arm returns %s' % show(t)[:60],
                               inputs='values that do not fit the width')
